@@ -96,7 +96,7 @@ def _tol(dtype) -> float:
     return 0.0
 
 
-def same(got, exp, *, check_dtype=True, rtol=None) -> str | None:
+def same(got, exp, *, check_dtype=True, rtol=None, atol=None) -> str | None:
     """Return None when ``got`` equals the reference ``exp``, else a short reason.
 
     Shapes equal; dtypes equal; bool/int values equal exactly; floats equal
@@ -133,9 +133,10 @@ def same(got, exp, *, check_dtype=True, rtol=None) -> str | None:
             r = rtol if rtol is not None else max(_tol(e.dtype), _tol(g.dtype))
             scale = float(np.max(np.abs(e[fin])))
             err = float(np.max(np.abs(g[fin].astype(np.complex128) - e[fin].astype(np.complex128))))
-            if err <= r * max(scale, 1e-300):
+            bound = max(r * max(scale, 1e-300), atol or 0.0)
+            if err <= bound:
                 return None
-            return f"values differ: max abs err {err:.3g} (scale {scale:.3g}, rtol {r:.3g})"
+            return f"values differ: max abs err {err:.3g} (scale {scale:.3g}, allowed {bound:.3g})"
     if g.dtype.kind == "O" or e.dtype.kind == "O":
         return None if np.array_equal(g, e) else "object values differ"
     if np.array_equal(g, e):
@@ -151,3 +152,31 @@ def short(a, limit=12):
 
 def verif_dir() -> str:
     return os.path.dirname(os.path.dirname(os.path.abspath(__file__)))
+
+
+def float_tolerance(vals, ops=()):
+    """Absolute tolerance for comparing a float result of a program whose
+    variables are ``vals``: 256 eps of the coarsest float dtype in the program,
+    relative to the largest finite magnitude of any variable (squared when a
+    variance is taken: cancellation error is eps*M^2; for std additionally
+    sqrt of that).  Returns None when no variable is floating (exact compare)."""
+    eps = 0.0
+    mag = 1.0
+    for v in vals:
+        v = np.asarray(v)
+        if v.dtype.kind in "fc":
+            eps = max(eps, float(np.finfo(v.dtype).eps))
+        if v.size and v.dtype.kind in "iufc":
+            with np.errstate(all="ignore"):
+                a = np.abs(v)
+                a = a[np.isfinite(a)]
+                if a.size:
+                    mag = max(mag, float(a.max()))
+    if eps == 0.0:
+        return None
+    tol = 256 * eps * mag
+    if any(o in ("var", "std", "nanvar", "nanstd", "moment") for o in ops):
+        tol = 256 * eps * mag * mag
+        if any(o in ("std", "nanstd") for o in ops):
+            tol = max(tol, (256 * eps) ** 0.5 * mag)
+    return tol
